@@ -18,6 +18,56 @@ class Raised(Exception):
         self.exc, self.version, self.lineno = exc, version, lineno
 
 
+class _Modules:
+    """several core.Module objects seen as one namespace"""
+
+    def __init__(self, mods):
+        self.mods = mods
+        self.classes = {}
+        self.funcs = {}
+        for m in reversed(mods):
+            self.classes.update(m.classes)
+            self.funcs.update(m.funcs)
+
+    def _home(self, cname):
+        for m in self.mods:
+            if cname in m.classes:
+                return m
+        return None
+
+    def mro(self, cname):
+        out, todo = [], [cname]
+        while todo:
+            c = todo.pop(0)
+            if c in out or c not in self.classes:
+                continue
+            out.append(c)
+            bases = []
+            for b in self.classes[c].bases:
+                if isinstance(b, ast.Name):
+                    bases.append(b.id)
+                elif isinstance(b, ast.Attribute):
+                    bases.append(b.attr)
+            todo = bases + todo
+        return out
+
+    def method(self, cname, mname):
+        for c in self.mro(cname):
+            m = self._home(c)
+            f = m.funcs.get('%s.%s' % (c, mname)) if m else None
+            if f is not None:
+                return f
+        return None
+
+    def class_const_node(self, cname, name):
+        for c in self.mro(cname):
+            m = self._home(c)
+            n = m.const_nodes.get(c, {}).get(name) if m else None
+            if n is not None:
+                return n, c
+        return None, None
+
+
 class Key:
     """a key symbol: (equivalence class, spelling)"""
     __slots__ = ('cls', 'spelling')
@@ -51,10 +101,13 @@ class Closure:
 
 
 class Heap:
-    def __init__(self, module, field_alias=None):
-        self.module = module            # core.Module with the class definitions
+    def __init__(self, module, field_alias=None, extra_modules=(), opaque_ctors=(), hooks=None):
+        self.module = _Modules([module] + list(extra_modules)) if extra_modules else module
+        self.opaque_ctors = set(opaque_ctors)   # classes whose constructor is not interpreted: fields from arguments
+        self.hooks = hooks or {}                # function name -> python callable(interp, args, kwargs)
         self.objs = {}                  # name -> {'__class__': cls, field: value}   dicts: {'__class__':'dict','entries':[(Key, value)]}
-        self.version = 0
+        self.version = 0          # counts mutations of objects that existed when mark() was called
+        self.marked = None
         self.n = 0
         self.failed_asserts = []
         self.field_alias = field_alias or {}
@@ -69,12 +122,46 @@ class Heap:
     def new_dict(self, name=None):
         return self.alloc('dict', {'entries': []}, name)
 
+    def mark(self):
+        """from now on only mutations of the objects that exist at this point count as observable"""
+        self.marked = set(self.objs)
+        self.version = 0
+
+    def touch(self, name):
+        if self.marked is None or name in self.marked:
+            self.version += 1
+
+    def new_list(self, items=(), name=None):
+        return self.alloc('list', {'items': list(items)}, name)
+
+    def is_list(self, v):
+        return isinstance(v, Ref) and self.objs[v.name]['__class__'] == 'list'
+
+    def items(self, v):
+        return self.objs[v.name]['items']
+
+    def isinstance_(self, v, cname):
+        if cname == 'tuple':
+            return isinstance(v, tuple)
+        if cname == 'str':
+            return isinstance(v, (Key, str))
+        if cname in ('int',):
+            return isinstance(v, int) and not isinstance(v, bool)
+        if not isinstance(v, Ref):
+            return False
+        c = self.objs[v.name]['__class__']
+        if c == cname:
+            return True
+        mro = self.module.mro(c) if c in self.module.classes else [c]
+        return cname in mro
+
     def snapshot(self):
         def norm_v(v):
             if isinstance(v, list):
-                return tuple((k.cls, k.spelling, repr(x)) for k, x in v)
+                return tuple(((k[0].cls, k[0].spelling, repr(k[1])) if isinstance(k, tuple) and len(k) == 2 and isinstance(k[0], Key) else repr(k)) for k in v)
             return repr(v)
-        return tuple(sorted((n, tuple(sorted((f, norm_v(v)) for f, v in o.items()))) for n, o in self.objs.items()))
+        return tuple(sorted((n, tuple(sorted((f, norm_v(v)) for f, v in o.items()))) for n, o in self.objs.items()
+                            if self.marked is None or n in self.marked))
 
     # -- attribute access
     def fld(self, attr, cls):
@@ -105,7 +192,7 @@ class Heap:
 
     def setattr(self, ref, attr, value, cur_cls):
         o = self.objs[ref.name]
-        self.version += 1
+        self.touch(ref.name)
         o[self.fld(attr, cur_cls)] = value
 
     # -- dicts
@@ -120,7 +207,7 @@ class Heap:
 
     def dict_set(self, dref, key, value):
         ent = self.objs[dref.name]['entries']
-        self.version += 1
+        self.touch(dref.name)
         for i, (k, v) in enumerate(ent):
             if k.cls == key.cls:
                 ent[i] = (k, value)       # an existing key object is kept (first spelling)
@@ -131,15 +218,41 @@ class Heap:
         ent = self.objs[dref.name]['entries']
         for i, (k, v) in enumerate(ent):
             if k.cls == key.cls:
-                self.version += 1
+                self.touch(dref.name)
                 del ent[i]
                 return
         raise Raised('KeyError', self.version, lineno)
 
 
+def _walk_fn(node):
+    todo = list(ast.iter_child_nodes(node))
+    while todo:
+        n = todo.pop()
+        yield n
+        if isinstance(n, (ast.FunctionDef, ast.Lambda, ast.ClassDef)):
+            continue
+        todo.extend(ast.iter_child_nodes(n))
+
+
 class Interp:
     def __init__(self, heap):
         self.h = heap
+
+    def seq(self, v):
+        """python list of the elements of an iterable value"""
+        h = self.h
+        if isinstance(v, (list, tuple)):
+            return list(v)
+        if h.is_list(v):
+            return list(h.items(v))
+        if isinstance(v, Ref):
+            o = h.objs[v.name]
+            if o['__class__'] == 'dict':
+                return [k for k, _ in o['entries']]
+            it = h.module.method(o['__class__'], '__iter__')
+            if it is not None:
+                return self.seq(self.call(Closure(it.node, {}, v, it.cls), []))
+        raise AnalysisError('heap model: cannot iterate %r' % (v,))
 
     def call(self, fn, args, kwargs=None):
         """fn: Closure"""
@@ -172,8 +285,13 @@ class Interp:
             for p in params:
                 if p not in env:
                     raise AnalysisError('heap model: missing argument %s of %s' % (p, node.name))
+            is_gen = any(isinstance(x, (ast.Yield, ast.YieldFrom)) for x in _walk_fn(node))
+            if is_gen:
+                env['#yields'] = []
             r = self.run(node.body, env, fn.cls)
-            return r[1] if r is not None else None
+            if is_gen:
+                return list(env['#yields'])
+            return r[1] if r is not None and r[0] == 'return' else None
         finally:
             h.depth -= 1
 
@@ -191,6 +309,8 @@ class Interp:
             o = self.h.objs[v.name]
             if o['__class__'] == 'dict':
                 return bool(o['entries'])
+            if o['__class__'] == 'list':
+                return bool(o['items'])
             c = o['__class__']
             b = self.h.module.method(c, '__bool__') if c in self.h.module.classes else None
             if b is not None:
@@ -210,8 +330,12 @@ class Interp:
                 return env[e.id]
             if e.id in h.module.classes:
                 return ('class', e.id)
+            if e.id in h.hooks:
+                return ('hook', e.id)
             if e.id in h.module.funcs:
                 return Closure(h.module.funcs[e.id].node, {}, None, None)
+            if e.id in ('tuple', 'str', 'int', 'list', 'dict'):
+                return ('class', e.id)
             raise AnalysisError('heap model: unbound name %s' % e.id)
         if isinstance(e, ast.Attribute):
             base = self.ev(e.value, env, cls)
@@ -220,7 +344,10 @@ class Interp:
                 if fn is None:
                     raise AnalysisError('heap model: %s.%s not found' % (base[1], e.attr))
                 return Closure(fn.node, {}, None, fn.cls)
-            return h.getattr(base, e.attr, cls)
+            v = h.getattr(base, e.attr, cls)
+            if isinstance(v, Closure) and isinstance(v.node, ast.FunctionDef) and any(norm(d) == 'property' for d in v.node.decorator_list):
+                return self.call(v, [])
+            return v
         if isinstance(e, ast.Compare) and len(e.ops) == 1:
             l = self.ev(e.left, env, cls)
             r = self.ev(e.comparators[0], env, cls)
@@ -236,6 +363,10 @@ class Interp:
                 else:
                     same = l == r
                 return same if isinstance(op, ast.Eq) else not same
+            if isinstance(op, (ast.In, ast.NotIn)) and (h.is_list(r) or isinstance(r, (list, tuple))):
+                items = h.items(r) if h.is_list(r) else list(r)
+                res = any((x == l) if not isinstance(l, Key) else (isinstance(x, Key) and x.cls == l.cls) for x in items)
+                return res if isinstance(op, ast.In) else not res
             if isinstance(op, (ast.In, ast.NotIn)):
                 if isinstance(r, Ref):
                     o = h.objs[r.name]
@@ -269,14 +400,47 @@ class Interp:
                 return l + r if isinstance(e.op, ast.Add) else l - r
         if isinstance(e, ast.Lambda):
             return Closure(e, dict(env), None, cls)
+        if isinstance(e, (ast.GeneratorExp, ast.ListComp)) and len(e.generators) == 1:
+            g = e.generators[0]
+            out = []
+            env2 = dict(env)
+            for v in self.seq(self.ev(g.iter, env, cls)):
+                self.assign(g.target, v, env2, cls)
+                if all(self.truth(self.ev(c, env2, cls)) for c in g.ifs):
+                    out.append(self.ev(e.elt, env2, cls))
+            return out if isinstance(e, ast.GeneratorExp) else h.new_list(out)
         if isinstance(e, ast.Subscript):
             base = self.ev(e.value, env, cls)
             key = self.ev(e.slice, env, cls)
             if isinstance(base, Ref) and h.objs[base.name]['__class__'] == 'dict':
                 return h.dict_get(base, key, e.lineno)
+            if h.is_list(base) or isinstance(base, (list, tuple)):
+                items = h.items(base) if h.is_list(base) else list(base)
+                if isinstance(key, slice):
+                    return h.new_list(items[key])
+                if isinstance(key, int):
+                    try:
+                        return items[key]
+                    except IndexError:
+                        raise Raised('IndexError', h.version, e.lineno)
             raise AnalysisError('heap model: subscript %s' % norm(e))
         if isinstance(e, ast.Call):
             return self.ev_call(e, env, cls)
+        if isinstance(e, ast.Slice):
+            return slice(self.ev(e.lower, env, cls) if e.lower else None, self.ev(e.upper, env, cls) if e.upper else None,
+                         self.ev(e.step, env, cls) if e.step else None)
+        if isinstance(e, ast.Tuple):
+            return tuple(self.ev(x, env, cls) for x in e.elts)
+        if isinstance(e, ast.List):
+            return h.new_list([self.ev(x, env, cls) for x in e.elts])
+        if isinstance(e, ast.Dict) and not e.keys:
+            return h.new_dict()
+        if isinstance(e, ast.UnaryOp) and isinstance(e.op, ast.USub):
+            v = self.ev(e.operand, env, cls)
+            if isinstance(v, int):
+                return -v
+        if isinstance(e, ast.JoinedStr):
+            return 'text'
         raise AnalysisError('heap model: expression %s' % norm(e)[:60])
 
     def ev_call(self, e, env, cls):
@@ -284,6 +448,73 @@ class Interp:
         fn = e.func
         args = [self.ev(a, env, cls) for a in e.args]
         kwargs = {k.arg: self.ev(k.value, env, cls) for k in e.keywords}
+        if isinstance(fn, ast.Name) and fn.id in h.hooks:
+            return h.hooks[fn.id](self, args, kwargs)
+        if isinstance(fn, ast.Attribute) and ('.' + fn.attr) in h.hooks:
+            base = self.ev(fn.value, env, cls)
+            r = h.hooks['.' + fn.attr](self, [base] + args, kwargs)
+            if r is not NotImplemented:
+                return r
+        if isinstance(fn, ast.Name) and fn.id in h.opaque_ctors:
+            return h.alloc(fn.id, {'text': args[0] if args else None, 'parent_element': None})
+        if isinstance(fn, ast.Name) and fn.id == 'isinstance' and len(e.args) == 2:
+            cl = e.args[1]
+            names = [norm(x) for x in cl.elts] if isinstance(cl, ast.Tuple) else [norm(cl)]
+            return any(h.isinstance_(args[0], nme.split('.')[-1]) for nme in names)
+        if isinstance(fn, ast.Name) and fn.id in ('bool',) and len(args) == 1:
+            return self.truth(args[0])
+        if isinstance(fn, ast.Name) and fn.id == 'cast' and len(args) == 2:
+            return args[1]
+        if isinstance(fn, ast.Name) and fn.id == 'reversed' and len(args) == 1:
+            if isinstance(args[0], Ref) and not h.is_list(args[0]):
+                o = h.objs[args[0].name]
+                rv = h.module.method(o['__class__'], '__reversed__')
+                if rv is not None:
+                    return self.seq(self.call(Closure(rv.node, {}, args[0], rv.cls), []))
+            return list(reversed(self.seq(args[0])))
+        if isinstance(fn, ast.Name) and fn.id in ('list', 'tuple', 'iter') and len(args) == 1:
+            items = self.seq(args[0])
+            return h.new_list(items) if fn.id == 'list' else (tuple(items) if fn.id == 'tuple' else items)
+        if isinstance(fn, ast.Name) and fn.id == 'len' and len(args) == 1 and (h.is_list(args[0]) or isinstance(args[0], (list, tuple))):
+            return len(h.items(args[0])) if h.is_list(args[0]) else len(args[0])
+        if isinstance(fn, ast.Name) and fn.id == 'enumerate' and len(args) == 1:
+            return [(i, v) for i, v in enumerate(self.seq(args[0]))]
+        if isinstance(fn, ast.Attribute) and fn.attr in ('append', 'remove', 'insert', 'index', 'pop', 'extend', 'clear', 'format'):
+            base = self.ev(fn.value, env, cls)
+            if h.is_list(base):
+                items = h.items(base)
+                if fn.attr == 'append':
+                    h.touch(base.name)
+                    items.append(args[0])
+                    return None
+                if fn.attr == 'extend':
+                    h.touch(base.name)
+                    items.extend(self.seq(args[0]))
+                    return None
+                if fn.attr == 'insert':
+                    h.touch(base.name)
+                    items.insert(args[0], args[1])
+                    return None
+                if fn.attr == 'clear':
+                    h.touch(base.name)
+                    del items[:]
+                    return None
+                if fn.attr in ('remove', 'index'):
+                    for i, x in enumerate(items):
+                        if x == args[0]:
+                            if fn.attr == 'index':
+                                return i
+                            h.touch(base.name)
+                            del items[i]
+                            return None
+                    raise Raised('ValueError', h.version, e.lineno)
+                if fn.attr == 'pop':
+                    if not items:
+                        raise Raised('IndexError', h.version, e.lineno)
+                    h.touch(base.name)
+                    return items.pop(args[0] if args else -1)
+            if isinstance(base, str):
+                return 'text'
         if isinstance(fn, ast.Name) and fn.id in h.module.classes:
             ref = h.alloc(fn.id)
             init = h.module.method(fn.id, '__init__')
@@ -320,10 +551,18 @@ class Interp:
         f = self.ev(fn, env, cls)
         if isinstance(f, Closure):
             return self.call(f, args, kwargs)
+        if isinstance(f, tuple) and f and f[0] == 'hook':
+            return h.hooks[f[1]](self, args, kwargs)
         raise AnalysisError('heap model: call %s' % norm(e)[:60])
 
     def exec(self, st, env, cls):
         h = self.h
+        if isinstance(st, ast.Expr) and isinstance(st.value, ast.Yield):
+            env['#yields'].append(self.ev(st.value.value, env, cls) if st.value.value is not None else None)
+            return None
+        if isinstance(st, ast.Expr) and isinstance(st.value, ast.YieldFrom):
+            env['#yields'].extend(self.seq(self.ev(st.value.value, env, cls)))
+            return None
         if isinstance(st, ast.Expr):
             if isinstance(st.value, ast.Constant):
                 return None
@@ -382,15 +621,39 @@ class Interp:
                             raise
                 raise
         if isinstance(st, ast.For):
-            it = self.ev(st.iter, env, cls)
-            if isinstance(it, list):
-                for v in it:
-                    self.assign(st.target, v, env, cls)
-                    r = self.run(st.body, env, cls)
-                    if r is not None:
-                        return r
-                return None
-            raise AnalysisError('heap model: loop over %s' % norm(st.iter))
+            items = self.seq(self.ev(st.iter, env, cls))
+            broke = False
+            for v in items:
+                self.assign(st.target, v, env, cls)
+                r = self.run(st.body, env, cls)
+                if r is not None:
+                    if r[0] == 'break':
+                        broke = True
+                        break
+                    if r[0] == 'continue':
+                        continue
+                    return r
+            if not broke and st.orelse:
+                return self.run(st.orelse, env, cls)
+            return None
+        if isinstance(st, ast.While):
+            n = 0
+            while self.truth(self.ev(st.test, env, cls)):
+                n += 1
+                if n > 64:
+                    raise AnalysisError('heap model: loop bound exceeded at line %d' % st.lineno)
+                r = self.run(st.body, env, cls)
+                if r is not None:
+                    if r[0] == 'break':
+                        break
+                    if r[0] == 'continue':
+                        continue
+                    return r
+            return None
+        if isinstance(st, ast.Break):
+            return ('break', None)
+        if isinstance(st, ast.Continue):
+            return ('continue', None)
         if isinstance(st, ast.Pass):
             return None
         raise AnalysisError('heap model: statement %s' % norm(st)[:60])
@@ -405,8 +668,18 @@ class Interp:
             base = self.ev(t.value, env, cls)
             if isinstance(base, Ref) and h.objs[base.name]['__class__'] == 'dict':
                 h.dict_set(base, self.ev(t.slice, env, cls), value)
+            elif h.is_list(base):
+                k = self.ev(t.slice, env, cls)
+                h.touch(base.name)
+                h.items(base)[k] = value
             else:
                 raise AnalysisError('heap model: store %s' % norm(t))
+        elif isinstance(t, ast.Tuple):
+            vals = self.seq(value)
+            if len(vals) != len(t.elts):
+                raise Raised('ValueError', h.version, getattr(t, 'lineno', 0))
+            for tt, v in zip(t.elts, vals):
+                self.assign(tt, v, env, cls)
         else:
             raise AnalysisError('heap model: assignment target %s' % norm(t))
 
